@@ -9,7 +9,81 @@ observed through public names (controller.check_deadlock / active_operations / r
 from __future__ import annotations
 
 import collections
+import copy
+import gc
+import os
+import pickle
+import time as _time
 from datetime import timedelta
+from decimal import Decimal
+from fractions import Fraction
+
+HOUR = timedelta(hours=1)
+ZERO = timedelta(0)
+
+
+class StrSub(str):
+    """a plain str subclass (equal to and hashing like the str it wraps)"""
+    __slots__ = ()
+
+
+class Token:
+    """an id that compares by identity only (sentinel object)"""
+    __slots__ = ("label",)
+
+    def __init__(self, label):
+        self.label = label
+
+    def __repr__(self):
+        return "<%s>" % self.label
+
+
+class Stop(BaseException):
+    """a user exception that is not an Exception"""
+
+
+EXC_TYPES = [RuntimeError, TypeError, TimeoutError, KeyError, AssertionError, ValueError, OSError, LookupError, Stop]
+
+
+class Falsy:
+    """a callable whose truth value is False"""
+
+    def __init__(self, fn):
+        self.fn = fn
+
+    def __call__(self, *a, **kw):
+        return self.fn(*a, **kw)
+
+    def __bool__(self):
+        return False
+
+
+class FalsyLen:
+    """a callable that is falsy through __len__"""
+
+    def __init__(self, fn):
+        self.fn = fn
+
+    def __call__(self, *a, **kw):
+        return self.fn(*a, **kw)
+
+    def __len__(self):
+        return 0
+
+
+def always_true(opctx):          # module level: picklable checkpoint condition
+    return True
+
+
+def set_tz(tz):
+    """switch the process time zone (POSIX TZ string, no tzdata needed); returns the previous setting"""
+    old = os.environ.get("TZ")
+    if tz is None:
+        os.environ.pop("TZ", None)
+    else:
+        os.environ["TZ"] = tz
+    _time.tzset()
+    return old
 
 
 def fresh(s):
@@ -55,6 +129,14 @@ class Cfg:
         self.probe = True             # end-of-history closing probe
         self.keep = 0                 # > 0: keep only the last `keep` trace entries (long histories)
         self.timed = False            # run under the virtual clock (clock jumps, watchdog timeouts)
+        # round 4
+        self.idtype = "str"           # "str" | "strsub" (ids are instances of a str subclass) ; names == "sentinel" uses identity-only objects
+        self.eqlen = False            # fresh ids of equal length
+        self.gc = 0                   # number of forced gc.collect() calls between requests
+        self.tz = None                # POSIX TZ string the case runs under (restored afterwards)
+        self.cond_wrap = None         # None | "falsy" | "falsylen": scripted checkpoint conditions are falsy callables
+        self.late = False             # construct plain (no checkpoints / default strategy / no exemptions), assign the settings later
+        self.keep_watchdog = False    # long-lived sessions: the Watchdog (and its event history) is never replaced
         self.__dict__.update(kw)
 
     def describe(self):
@@ -69,29 +151,46 @@ class Cfg:
 
 CASE_OPS = ["op", "OP", "Op", "oP", "Job", "JOB"]
 CASE_RES = ["res", "RES", "Res", "rES", "Lock", "LOCK"]
+# regex metacharacters, format fields, NUL, newlines, lone surrogates
+HOSTILE_OPS = ["a.*", "a.+", "{0}", "%s", "x\x00y", "x\ny", "\udcff", "a|b"]
+HOSTILE_RES = ["r[0-9]", "r\\d", "{}", "%d", "\x00", "line\nbreak", "\ud800", "(r)"]
 
 
 class World:
-    def __init__(self, ctx, cfg, rng, clock=None, wd=None, tag="w"):
+    def __init__(self, ctx, cfg, rng, clock=None, wd=None, tag="w", strat=None):
         from operon_ai.coordination.controller import CellCycleController, Checkpoint
         from operon_ai.coordination.types import ResourceLock, LockResult, Phase
         from operon_ai.coordination.watchdog import Watchdog, ApoptosisReason
         from operon_ai.coordination.priority import PriorityInheritance
         self.ctx, self.cfg, self.rng, self.clock, self.tag = ctx, cfg, rng, clock, tag
         self.LockResult, self.ResourceLock, self.DEADLOCK = LockResult, ResourceLock, ApoptosisReason.DEADLOCK
-        tk = dict(cfg.timeouts or {})
+        self.Watchdog, self.Checkpoint, self.Phase = Watchdog, Checkpoint, Phase
+        self.tk = dict(cfg.timeouts or {})
         self.system = None
+        self.shared_wd = wd is not None
+        # the strategy currently in force (a one-element box: worlds that share a Watchdog share it)
+        self.strat = strat if strat is not None else [cfg.strategy]
+        late = cfg.late
         if cfg.path == "system":
             from operon_ai.coordination.system import CoordinationSystem
-            self.system = CoordinationSystem(**tk)
+            self.system = CoordinationSystem(**self.tk)
             self.ctl, self.wd, self.pi = self.system.controller, self.system.watchdog, self.system.priority_manager
-            self.wd.deadlock_strategy = cfg.strategy
+            if late:
+                self.strat[0] = self.wd.deadlock_strategy      # the default until assigned
+            else:
+                self.wd.deadlock_strategy = self.strat[0]
         else:
             kw = {}
-            if cfg.checkpoints == "scripted":
-                kw["checkpoints"] = {ph: [Checkpoint(phase=ph, condition=self._cond, name="scripted")] for ph in Phase}
+            if cfg.checkpoints in ("scripted", "plain") and not late:
+                kw["checkpoints"] = self._checkpoints(cfg.checkpoints)
             self.ctl = CellCycleController(**kw)
-            self.wd = wd if wd is not None else Watchdog(deadlock_strategy=cfg.strategy, **tk)
+            if wd is not None:
+                self.wd = wd
+            elif late:
+                self.wd = Watchdog(**self.tk)
+                self.strat[0] = self.wd.deadlock_strategy
+            else:
+                self.wd = Watchdog(deadlock_strategy=self.strat[0], **self.tk)
             self.pi = PriorityInheritance()
         self.nops, self.nres = cfg.nops, cfg.nres
         self.prios = list(cfg.prios)
@@ -99,14 +198,19 @@ class World:
         self.ops, self.res = [], []
         self.serial = 0
         self.ctxs, self.waiting, self.hold, self.touched = {}, {}, {}, {}
+        self.age, self.vstart = {}, {}
         self.stale = set()
         self.trace = collections.deque(maxlen=cfg.keep) if cfg.keep else []
         self.states = []
         self.dead = self.violated = False
         self.had_blocked = self.had_cycle = self.owner_change_while_waiting = False
         self.compared_last = True
-        self.cb_mode, self.cb_nested = "true", None
+        self.cb_mode, self.cb_nested, self.cb_exc = "true", None, None
+        self.cp_kind = None if (late or cfg.path == "system") else cfg.checkpoints
         self.nsteps = self.nstarted = self.nfresh = 0
+        self.gc_left = cfg.gc
+        self.in_work = False
+        self.dups = 0
         for j in range(self.nres):
             self.res.append(self._rname(j))
             self._register(j)
@@ -114,19 +218,50 @@ class World:
             self.ops.append(self._oname(s))
             self._start(s)
 
+    def _checkpoints(self, kind):
+        if kind == "plain":
+            return {ph: [self.Checkpoint(phase=ph, condition=always_true, name="plain")] for ph in self.Phase}
+        cond = self._cond
+        if self.cfg.cond_wrap == "falsy":
+            cond = Falsy(cond)
+        elif self.cfg.cond_wrap == "falsylen":
+            cond = FalsyLen(cond)
+        return {ph: [self.Checkpoint(phase=ph, condition=cond, name="scripted", timeout=timedelta(seconds=0.5))] for ph in self.Phase}
+
     # ---- naming -----------------------------------------------------
-    def _oname(self, s):
+    def _mk(self, base, serial=None):
+        """build an id object of the configured kind from a base label"""
+        if self.cfg.names == "sentinel":
+            return Token(base if serial is None else "%s#%d" % (base, serial))
+        if serial is not None:
+            base = ("%s#%06d" if self.cfg.eqlen else "%s#%d") % (base, serial)
+        return StrSub(base) if self.cfg.idtype == "strsub" else base
+
+    def _obase(self, s):
         if self.cfg.names == "case" and s < len(CASE_OPS):
             return CASE_OPS[s]
+        if self.cfg.names == "hostile" and s < len(HOSTILE_OPS):
+            return HOSTILE_OPS[s]
         return ("n%d" if self.cfg.names == "clash" else "op%d") % s
 
-    def _rname(self, j):
+    def _rbase(self, j):
         if self.cfg.names == "case" and j < len(CASE_RES):
             return CASE_RES[j]
+        if self.cfg.names == "hostile" and j < len(HOSTILE_RES):
+            return HOSTILE_RES[j]
         return ("n%d" if self.cfg.names == "clash" else "r%d") % j
 
+    def _oname(self, s, serial=None):
+        return self._mk(self._obase(s), serial)
+
+    def _rname(self, j, serial=None):
+        return self._mk(self._rbase(j), serial)
+
     def _id(self, s):
-        return fresh(s) if self.cfg.fresh_ids else s
+        if not self.cfg.fresh_ids or not isinstance(s, str):
+            return s
+        f = fresh(s)
+        return StrSub(f) if self.cfg.idtype == "strsub" and self.rng.random() < 0.5 else f
 
     # ---- reporting --------------------------------------------------
     def witness(self):
@@ -211,12 +346,20 @@ class World:
         else:
             agent = "agent-%s" % o
         starter = self.system.start_operation if self.system is not None else self.ctl.start_operation
+        if self.gc_left > 0:
+            self.gc_left -= 1
+            gc.collect()
+            self.ctx.count("forced_collections")
         c = starter(self._id(o), agent, priority=self.prios[s])
+        self.age[o] = ZERO
+        self.vstart[o] = self.clock.offset if self.clock is not None else 0.0
         try:
-            if cfg.ages:
-                c.created_at = c.created_at - cfg.ages[s % len(cfg.ages)]
+            if cfg.ages and not cfg.late:
+                a = cfg.ages[s % len(cfg.ages)]
+                c.created_at = c.created_at - a
+                self.age[o] = a
                 self.ctx.count("operations_with_shifted_age")
-            if s in cfg.exempt:
+            if s in cfg.exempt and not cfg.late:
                 c.metadata["watchdog_exempt"] = True
                 self.ctx.count("operations_exempt_from_timeouts")
         except Exception:
@@ -316,7 +459,10 @@ class World:
             elif self.system is not None:
                 self.system.kill_operation(self._id(o), "test kill")
             else:
-                self.wd.manual_kill(self.ctl, self._id(o))
+                if self.rng.random() < 0.5:
+                    self.wd.manual_kill(self.ctl, self._id(o), reason="x{0}%s\n\udc80")
+                else:
+                    self.wd.manual_kill(self.ctl, self._id(o))
         except Exception as e:
             self.trace.append([how, o, "RAISED " + type(e).__name__])
             return self.abandon("finish-raised") or True
@@ -328,7 +474,7 @@ class World:
         o = self.ops[s]
         if not self.live(o):
             return False
-        bad = {"unknown": "no-such-resource", "none": None, "unhashable": [self.res[0]], "othercase": self.res[0].swapcase() + "?",
+        bad = {"unknown": "no-such-resource", "none": None, "unhashable": [self.res[0]], "othercase": (self.res[0].swapcase() + "?") if isinstance(self.res[0], str) else Token("other"),
                "empty": ""}[kind]
         try:
             res = self.ctl.acquire_resource(self.ctxs[o], bad)
@@ -350,21 +496,26 @@ class World:
                 self.ctx.count("reentrant_acquires_from_callback")
         if mode == "raise":
             self.ctx.count("raising_callbacks")
-            raise RuntimeError("checkpoint condition failed")
+            exc = self.cb_exc or RuntimeError
+            self.ctx.count("callback_raised:" + exc.__name__)
+            raise exc("checkpoint condition failed")
         return mode != "false"
 
     def _advance(self, s):
         o = self.ops[s]
         if not self.live(o):
             return False
-        if self.cfg.checkpoints == "scripted":
+        if self.cp_kind == "scripted":
             self.cb_mode = self.rng.choice(["true", "true", "false", "raise"])
+            self.cb_exc = self.rng.choice(EXC_TYPES)
             if self.rng.random() < 0.5:
                 self.cb_nested = (self.rng.randrange(self.nops), self.rng.randrange(self.nres))
         try:
             res = self.ctl.advance(self.ctxs[o])
             self.trace.append(["advance", o, self.ctxs[o].phase.value, getattr(res, "value", None)])
-        except Exception as e:
+        except BaseException as e:      # a user exception that is not an Exception propagates; the relation is unchanged
+            if not isinstance(e, (Exception, Stop)):
+                raise
             self.trace.append(["advance", o, "RAISED " + type(e).__name__])
             self.ctx.count("advance_raised")
         self.cb_mode, self.cb_nested = "true", None
@@ -447,7 +598,7 @@ class World:
             return False
         if kind == "freshres":
             self.serial += 1
-            self.res[j] = "%s#%d" % (self._rname(j), self.serial)
+            self.res[j] = self._rname(j, self.serial)
         self._register(j)       # "reregister": a fresh lock object under the same id while it is free and nobody waits for it
         self.ctx.count("registry_changes")
         self.trace.append([kind, self.res[j]])
@@ -503,16 +654,24 @@ class World:
         if dl:
             # the deadlock victim proper (operations terminated for other reasons in the same sweep are plain aborts)
             pr = {m: self.ctxs[m].priority for m in members}
-            if self.cfg.strategy == "priority":
+            strategy = self.strat[0]
+            if strategy == "priority":
                 if any(pr[m] < pr[v] for m in members):
                     self.viol("victim-not-lowest-priority", "victim %s (priority %r) but cycle priorities are %r" % (v, pr[v], pr))
                     return True
                 self.ctx.count("victims_judged_priority")
-            elif self.cfg.strategy == "oldest":
+            elif strategy == "oldest":
                 # judged on the operations' creation stamps (ties: any oldest member is acceptable)
                 if any(self.ctxs[m].created_at < self.ctxs[v].created_at for m in members):
                     self.viol("victim-not-oldest", "victim %s is not the oldest member of %s (%s)" % (
                         v, members, {m: str(self.ctxs[m].created_at) for m in members}))
+                    return True
+                # ... and on the harness' own record (start order on the virtual clock and the age shifts it assigned), whatever
+                # clock the stamps were taken from: only differences of >= 1 hour under BOTH readings (stamps on the virtual or the real clock) count
+                older = [m for m in members if m != v and self._definitely_older(m, v)]
+                if older:
+                    self.viol("victim-not-oldest", "victim %s was created at least an hour after %s (harness record: ages %s, virtual start offsets %s)" % (
+                        v, older, {m: str(self.age.get(m)) for m in members}, {m: self.vstart.get(m) for m in members}))
                     return True
                 self.ctx.count("victims_judged_oldest")
         cand = set(self.touched.get(v, ())) | set(self.res[:8])
@@ -529,6 +688,260 @@ class World:
             self.viol("cycle-not-broken", "after killing %s the same cycle %s is still reported" % (v, again.agents))
         return True
 
+    # ---- round 4: rarely used public methods, settings assigned later, object protocols ----------------
+    def _pop(self, j):
+        """ResourceLock.pop_next_waiter(): the caller takes the next waiter off the lock's queue (scheduler-managed hand-off).
+        The popped operation has not acquired anything yet: it is still blocked until its retry succeeds."""
+        r = self.res[j]
+        lk = self.ctl.resources.get(r)
+        if lk is None:
+            return False
+        try:
+            got = lk.pop_next_waiter()
+        except Exception as e:
+            self.trace.append(["pop_next_waiter", r, "RAISED " + type(e).__name__])
+            self.ctx.count("pop_next_waiter_raised")
+            return True
+        self.trace.append(["pop_next_waiter", r, repr(got)])
+        if got is not None:
+            self.ctx.count("waiters_popped")
+            try:
+                if self.waiting.get(got[0]) == r:
+                    self.ctx.count("popped_while_still_blocked")
+            except Exception:
+                pass
+        return True
+
+    def _release_all(self, s):
+        o = self.ops[s]
+        if not self.live(o) or o in self.waiting:
+            return False      # a blocked operation only retries
+        try:
+            self.ctl.release_all_resources(self.ctxs[o])
+        except Exception as e:
+            self.trace.append(["release_all", o, "RAISED " + type(e).__name__])
+            return self.abandon("release-all-raised") or True
+        self.trace.append(["release_all", o])
+        for r, h in list(self.hold.items()):
+            if h[0] == o:
+                del self.hold[r]
+                self._own_changed(r)
+        self.ctx.count("release_all_calls")
+        return True
+
+    def _ctx_api(self, s, kind):
+        """public OperationContext methods a user may call at any time; none of them touches the wait-for relation"""
+        o = self.ops[s]
+        if not self.live(o):
+            return False
+        c = self.ctxs[o]
+        try:
+            if kind == "enter_phase":
+                ph = self.rng.choice(list(self.Phase))
+                c.enter_phase(ph)
+                self.trace.append(["enter_phase", o, ph.value])
+            elif kind == "set_result":
+                c.set_result(Token("result"))
+                c.execution_complete = self.rng.random() < 0.5
+                c.validation_passed = self.rng.random() < 0.5
+                c.resources_acquired = self.rng.random() < 0.5
+                self.trace.append(["set_result", o])
+        except Exception as e:
+            self.trace.append([kind, o, "RAISED " + type(e).__name__])
+            self.ctx.count("context_api_raised")
+            return True
+        self.ctx.count("context_api_calls")
+        return True
+
+    def _execute_op(self):
+        """CoordinationSystem.execute_operation: a transient operation that starts, acquires, works (the work function re-enters the
+        world), validates and completes/aborts in one call.  It only asks for non-preemptable resources, so by the history-derived
+        model it either is BLOCKED at once (-> aborted, nothing kept) or holds what it asked for while the work function runs."""
+        if self.system is None or self.in_work:
+            return False
+        rng = self.rng
+        self.serial += 1
+        T = self._mk("tx", self.serial)
+        nonpre = [j for j in range(self.nres) if not self.pre[j]]
+        req = [self.res[j] for j in (rng.choices(nonpre, k=rng.randint(0, 3)) if nonpre else [])]
+        holds, blocked_at = {}, None
+        for r in req:
+            h = self.hold.get(r)
+            if h is None or r in holds:
+                holds[r] = holds.get(r, 0) + 1
+            else:
+                blocked_at = r
+                break
+        shape = rng.choice(["list", "tuple", "generator", "iter", "none"]) if req else rng.choice(["list", "none", "generator"])
+        if shape == "list":
+            arg = [self._id(r) for r in req]
+        elif shape == "tuple":
+            arg = tuple(self._id(r) for r in req)
+        elif shape == "generator":
+            arg = (self._id(r) for r in req)
+            self.ctx.count("one_shot_iterables")
+        elif shape == "iter":
+            arg = iter([self._id(r) for r in req])
+            self.ctx.count("one_shot_iterables")
+        else:
+            arg = None
+            if req:
+                req, holds, blocked_at = [], {}, None
+        work_exc = rng.choice([None, None, None] + EXC_TYPES[:-1])     # (execute_operation turns Exceptions into an abort)
+        val_mode = rng.choice(["none", "true", "false", "raise", "falsy-false"])
+        nested = [rng.random() for _ in range(rng.randint(0, 3))]
+        ran = []
+
+        def work():
+            ran.append(1)
+            self.in_work = True
+            try:
+                for r, k in holds.items():
+                    self.hold[r] = [T, k]
+                    self._own_changed(r)
+                self.ctx.count("work_functions_run")
+                for x in nested:
+                    if self.dead or self.violated:
+                        break
+                    s, j = rng.randrange(self.nops), rng.randrange(self.nres)
+                    if x < 0.6:
+                        step = ("acquire", s, j)
+                    elif x < 0.7:
+                        step = ("release", s, j)
+                    elif x < 0.8:
+                        step = ("read", rng.choice(READ_KINDS))
+                    elif x < 0.9:
+                        step = ("pop", j)
+                    else:
+                        step = ("bad_acquire", s, rng.choice(BAD_KINDS))
+                    self.apply(step, force=True)
+                    self.ctx.count("steps_inside_work_function")
+            finally:
+                self.in_work = False
+            if work_exc is not None:
+                raise work_exc("work failed")
+            return Token("work-result")
+
+        def validate(result):
+            if val_mode == "raise":
+                raise rng.choice(EXC_TYPES[:-1])("validator failed")
+            return val_mode not in ("false", "falsy-false")
+
+        work_fn = rng.choice([work, work, Falsy(work), FalsyLen(work)])
+        validate_fn = None if val_mode == "none" else Falsy(validate) if val_mode == "falsy-false" else validate
+        kw = {"priority": rng.choice(self.prios)} if rng.random() < 0.7 else {}
+        try:
+            res = self.system.execute_operation(self._id(T), "agent-tx", work_fn, resources=arg, validate_fn=validate_fn, **kw)
+        except BaseException as e:
+            self.trace.append(["execute_operation", T, req, "RAISED " + type(e).__name__])
+            return self.abandon("execute-operation-raised") or True
+        self.trace.append(["execute_operation", T, req, shape, "ok" if res.success else "failed: %s" % (res.error,)])
+        self.ctx.count("transient_operations")
+        if bool(ran) != (blocked_at is None):
+            return self.abandon("execute-operation-contradicts-history") or True
+        if blocked_at is not None:
+            self.ctx.count("transient_operations_blocked")
+        self._model_finish(T)
+        return True
+
+    def _setting(self, step):
+        """public attributes assigned / toggled / withdrawn mid-session: every obligation follows the CURRENT value"""
+        kind = step[1]
+        rng = self.rng
+        if kind == "strategy":
+            self.wd.deadlock_strategy = step[2]
+            self.strat[0] = step[2]
+        elif kind == "priority":
+            o = self.ops[step[2]]
+            if not self.live(o):
+                return False
+            self.ctxs[o].priority = step[3]
+        elif kind == "exempt":
+            o = self.ops[step[2]]
+            if not self.live(o):
+                return False
+            if step[3] == "pop":
+                self.ctxs[o].metadata.pop("watchdog_exempt", None)
+            else:
+                self.ctxs[o].metadata["watchdog_exempt"] = step[3]
+        elif kind == "preempt":
+            j = step[2]
+            lk = self.ctl.resources.get(self.res[j])
+            if lk is None:
+                return False
+            lk.allow_preemption = step[3]
+            self.pre[j] = step[3]
+        elif kind == "timeout":
+            if self.clock is None or self.shared_wd:
+                return False
+            setattr(self.wd, step[2], step[3])
+            self.tk[step[2]] = step[3]
+        elif kind == "watchdog":
+            if self.shared_wd or self.cfg.keep_watchdog:
+                return False
+            new = self.Watchdog(deadlock_strategy=self.strat[0], **self.tk)
+            if self.system is not None:
+                self.system.watchdog = new
+            self.wd = new
+        elif kind == "checkpoints":
+            if self.in_work:
+                return False
+            k = step[2]
+            self.ctl.checkpoints = {} if k == "empty" else self._checkpoints(k)
+            self.cp_kind = None if k == "empty" else k
+        elif kind == "age":
+            o = self.ops[step[2]]
+            if not self.live(o):
+                return False
+            c = self.ctxs[o]
+            c.created_at = c.created_at - step[3]
+            self.age[o] = self.age.get(o, ZERO) + step[3]
+        else:
+            raise ValueError(step)
+        self.trace.append(["set"] + [repr(x) if not isinstance(x, (str, int)) or isinstance(x, bool) else x for x in step[1:]])
+        self.ctx.count("settings_changed_mid_session")
+        self.ctx.count("setting:" + kind)
+        return True
+
+    def _dup(self, kind):
+        """copy.copy / copy.deepcopy / pickle round trip of the objects under test; the history continues on the duplicate"""
+        if self.shared_wd or self.in_work or self.cp_kind == "scripted" or self.dups >= 2:
+            return False
+        if self.cfg.names == "sentinel" and kind != "copy":
+            return False      # identity-only ids do not survive a deep copy by definition
+        root = (self.system,) if self.system is not None else (self.ctl, self.wd, self.pi)
+        self.ctx.count("duplication_attempts")
+        try:
+            if kind == "copy":
+                new = tuple(copy.copy(x) for x in root)
+            elif kind == "deepcopy":
+                new = copy.deepcopy(root)
+            else:
+                new = pickle.loads(pickle.dumps(root))
+        except Exception as e:
+            self.trace.append(["dup", kind, "RAISED " + type(e).__name__])
+            self.ctx.count("duplication_refused:" + kind)
+            return True
+        if self.system is not None:
+            self.system = new[0]
+            self.ctl, self.wd, self.pi = self.system.controller, self.system.watchdog, self.system.priority_manager
+        else:
+            self.ctl, self.wd, self.pi = new
+        for o in list(self.ctxs):
+            c = self.ctl.active_operations.get(o)
+            if c is not None:
+                self.ctxs[o] = c
+        self.dups += 1
+        self.trace.append(["dup", kind])
+        self.ctx.count("duplicates_continued")
+        self.ctx.count("duplicate:" + kind)
+        return True
+
+    def _definitely_older(self, m, v):
+        d = self.age.get(m, ZERO) - self.age.get(v, ZERO)                     # stamps from the real clock: starts are (nearly) simultaneous
+        dv = d - timedelta(seconds=self.vstart.get(m, 0.0) - self.vstart.get(v, 0.0))   # stamps from the virtual clock
+        return d >= HOUR and dv >= HOUR
+
     # ---- one step ---------------------------------------------------
     def _exec(self, step):
         kind = step[0]
@@ -544,7 +957,7 @@ class World:
                 return False
             if kind == "fresh":
                 self.serial += 1
-                self.ops[s] = "%s#%d" % (self._oname(s), self.serial)
+                self.ops[s] = self._oname(s, self.serial)
                 self.nfresh += 1
             self._start(s)
             return True
@@ -567,6 +980,25 @@ class World:
             return True
         if kind in ("register", "reregister", "freshres"):
             return self._registry(step)
+        if kind == "pop":
+            return self._pop(step[1])
+        if kind == "release_all":
+            return self._release_all(step[1])
+        if kind == "ctxapi":
+            return self._ctx_api(step[1], step[2])
+        if kind == "execute_op":
+            return self._execute_op()
+        if kind == "set":
+            return self._setting(step)
+        if kind == "dup":
+            return self._dup(step[1])
+        if kind == "tz":
+            if not self.cfg.tz:
+                return False      # only in cases that own (and restore) the process time zone
+            set_tz(step[1])
+            self.ctx.count("time_zone_switches")
+            self.trace.append(["tz", step[1]])
+            return True
         if kind == "shutdown":
             if self.system is None:
                 return False
@@ -641,7 +1073,7 @@ class World:
                 return
             ctx.count("reported_cycles_validated")
         if len(self.states) < 64:
-            self.states.append((tuple(sorted(model_owners.items())), tuple(sorted(self.waiting.items()))))
+            self.states.append((tuple(sorted(model_owners.items(), key=repr)), tuple(sorted(self.waiting.items(), key=repr))))
 
     def finish(self):
         """closing probe (every wait edge is only observable through a cycle: try to close one through each chain),
@@ -678,7 +1110,13 @@ PRIO_PROFILES = {
     "extreme": [float("inf"), float("-inf"), 0, 1e308, -1e308, 1],
     "mixed": [0, 1, 0.5, 2 ** 53 + 1, float(2 ** 53), -0.0, 0.1 + 0.2, 0.3, float("inf"), -7],
     "nan": [float("nan"), 1, 2, 0],
+    # value types: bool where an int is usual, Fraction / Decimal (never both in one world: they do not compare with each other)
+    "fraction": [True, False, Fraction(1, 3), Fraction(1, 2), Fraction(2, 6), Fraction(-1, 7), 1, 0.5, 2],
+    "decimal": [True, False, Decimal("0.1"), Decimal("0.10"), Decimal("2"), Decimal("-0"), 1, 0, 3],
 }
+STRATEGIES = ["priority", "priority", "oldest", "oldest", "fifo", None, "", "PRIORITY", 0]
+PREEMPT_VALUES = [True, False, True, False, 0, 1, None, "", "yes", 2]
+TZS = ["AAA-14", "BBB12", "CCC-5:45", "UTC0"]
 AGES = [timedelta(0), timedelta(microseconds=1), timedelta(hours=2), timedelta(hours=25), timedelta(days=400, hours=1), timedelta(seconds=0.5)]
 TIMEOUTS = [timedelta(0), timedelta(hours=1.5), timedelta(hours=26.25), timedelta(days=1000, minutes=7)]
 TICKS = [0, 3600, 2 * 3600, 25 * 3600, 10 * 86400, 400 * 86400]     # whole hours only: never within real-time noise of a timeout above
@@ -688,7 +1126,7 @@ READ_KINDS = ["stats", "wdcheck", "chain", "repr", "health", "locks", "check"]
 
 def random_cfg(rng, hostile=True):
     nops, nres = rng.choice([(2, 2), (3, 2), (2, 3), (3, 3), (3, 3), (4, 3), (4, 4)])
-    prof = rng.choice(["small", "small", "small", "zero", "float", "big", "extreme", "mixed", "mixed"] + (["nan"] if rng.random() < 0.2 else []))
+    prof = rng.choice(["small", "small", "small", "zero", "float", "big", "extreme", "mixed", "mixed", "fraction", "decimal"] + (["nan"] if rng.random() < 0.2 else []))
     pool = PRIO_PROFILES[prof]
     prios = tuple(rng.choice(pool) for _ in range(nops))
     allpre = rng.random() < 0.2
@@ -713,14 +1151,83 @@ def random_cfg(rng, hostile=True):
         cfg.checkpoints = "scripted"
     if rng.random() < 0.2:
         cfg.exempt = tuple(s for s in range(nops) if rng.random() < 0.5)
+    # round 4
+    cfg.prof = prof
+    k = rng.random()
+    if k < 0.12:
+        cfg.names = "hostile"
+    elif k < 0.2:
+        cfg.names = "sentinel"
+    if rng.random() < 0.25:
+        cfg.idtype = "strsub"
+    cfg.eqlen = rng.random() < 0.3
+    if rng.random() < 0.03:
+        cfg.gc = rng.randint(1, 4)
+    if rng.random() < 0.12:
+        cfg.tz = rng.choice(TZS[:3])
+        cfg.timed = True
+    if cfg.path == "direct" and cfg.checkpoints is None and rng.random() < 0.3:
+        cfg.checkpoints = "plain"        # picklable checkpoint conditions
+    if cfg.checkpoints == "scripted":
+        cfg.cond_wrap = rng.choice([None, None, "falsy", "falsylen"])
+    cfg.late = rng.random() < 0.2
     return cfg
+
+
+def late_settings(cfg, rng):
+    """the settings a `late` world was constructed without, as steps to be applied during the history"""
+    out = [("set", "strategy", cfg.strategy)]
+    if cfg.path == "direct" and cfg.checkpoints:
+        out.append(("set", "checkpoints", cfg.checkpoints))
+    if cfg.ages:
+        for s in range(cfg.nops):
+            out.append(("set", "age", s, cfg.ages[s % len(cfg.ages)]))
+    for s in cfg.exempt:
+        out.append(("set", "exempt", s, True))
+    rng.shuffle(out)
+    return out
+
+
+def random_setting(w, rng):
+    k = rng.random()
+    s, j = rng.randrange(w.nops), rng.randrange(w.nres)
+    if k < 0.22:
+        return ("set", "strategy", rng.choice(STRATEGIES))
+    if k < 0.44:
+        return ("set", "priority", s, rng.choice(PRIO_PROFILES.get(getattr(w.cfg, "prof", "small"), PRIO_PROFILES["small"])))
+    if k < 0.60:
+        return ("set", "exempt", s, rng.choice([True, True, False, "pop", 1, 0, "yes"]))
+    if k < 0.74:
+        return ("set", "preempt", j, rng.choice(PREEMPT_VALUES))
+    if k < 0.80:
+        return ("set", "timeout", rng.choice(["max_operation_time", "starvation_timeout", "progress_timeout"]), rng.choice(TIMEOUTS + [None]))
+    if k < 0.87:
+        return ("set", "watchdog")
+    if k < 0.93:
+        return ("set", "checkpoints", rng.choice(["scripted", "plain", "empty"]))
+    return ("set", "age", s, rng.choice(AGES))
 
 
 def random_step(w, rng):
     k = rng.random()
     s, j = rng.randrange(w.nops), rng.randrange(w.nres)
-    if k < 0.50:
+    if k < 0.40:
         return ("acquire", s, j)
+    if k < 0.50:
+        x = (k - 0.40) * 10
+        if x < 0.22:
+            return ("pop", j)
+        if x < 0.32:
+            return ("release_all", s)
+        if x < 0.42:
+            return ("ctxapi", s, rng.choice(["enter_phase", "set_result"]))
+        if x < 0.60:
+            return ("execute_op",) if w.system is not None else ("acquire", s, j)
+        if x < 0.85:
+            return random_setting(w, rng)
+        if x < 0.93:
+            return ("dup", rng.choice(["copy", "deepcopy", "deepcopy", "pickle"]))
+        return ("tz", rng.choice(TZS)) if w.cfg.tz else ("acquire", s, j)
     if k < 0.58:
         return ("release", s, j)
     if k < 0.62:
@@ -785,13 +1292,31 @@ def guided_step(w, rng):
     if st:
         cats.append(st)
         cats.append(st)
-    if w.cycles():
+    if w.waiting:
+        queued = [("pop", j) for j in range(w.nres) if w.res[j] in w.waiting.values()]
+        if queued:
+            cats.append(queued)
+    if holders:
+        ra = [("release_all", s) for s in free if w.ops[s] in holders]
+        if ra:
+            cats.append(ra)
+    cyc = w.cycles()
+    if cyc:
         cats.append([("watchdog",), ("read", "wdcheck"), ("boost",)])
+        mem = [w.ops.index(m) for m in cyc[0] if m in w.ops]
+        if mem:
+            pool = PRIO_PROFILES.get(getattr(w.cfg, "prof", "small"), PRIO_PROFILES["small"])
+            cats.append([("set", "priority", rng.choice(mem), rng.choice(pool)), ("set", "exempt", rng.choice(mem), True),
+                         ("set", "strategy", rng.choice(STRATEGIES[:4])), ("set", "age", rng.choice(mem), rng.choice(AGES)), ("set", "watchdog")])
     deadslots = [s for s in range(w.nops) if s not in liv]
     if deadslots:
         cats.append([(rng.choice(["start", "fresh"]), s) for s in deadslots])
     if w.waiting:
         cats.append([("boost",), ("read", rng.choice(READ_KINDS))])
+    if w.system is not None and not w.in_work:
+        cats.append([("execute_op",)])
+    if w.cfg.tz:
+        cats.append([("tz", rng.choice(TZS)), ("tick", rng.choice(TICKS)), ("fresh", rng.randrange(w.nops))])
     cats = [c for c in cats if c]
     if not cats:
         return random_step(w, rng)
